@@ -236,6 +236,15 @@ def run(unit):
                     r.count('evaluations')
                     r.count('states')
                     expect_type_error('prop', text, 'field required at two disjoint types, once through the own alias', r, problems)
+        # the own alias as a whole message where the position requires something else (the parser substitutes the
+        # message for the alias after the predicate was built, so the rebuilt nodes must be checked again)
+        whole = ['x in {@M, 1}', 'x in {@M}', 'x in {1, @M.x, @M}', 'x in [0 to @M]', 'x in ![@M to 3]', '@M > 0', 'not @M', 'xs[@M] > 0', 'abs(@M) > 0', 'forall i in @M: @i > 0', 'exists i in {@M}: @i > 0',
+                 '@M = 1', 'len(@M) > 0', '@M.xs[@M] > 0', '@M + 1 > 0', '-@M < 0', 'x = @M', 'p implies @M', 'sum({@M, 2}) > 0', 'max({@M.x, @M}) > 0', 'forall i in xs: @i > @M', 'forall i in [0 to @M]: @i > 0']
+        for cond in whole:
+            for tmpl in ('globally: no t as M { %s }', 'after s: (u or t as M { %s }) causes w', 'until t as M { %s }: some w', 'after s as A: t as M { @A.k > 0 and %s } forbids w'):
+                r.count('evaluations')
+                r.count('states')
+                expect_type_error('prop', tmpl % cond, 'own alias used as a whole message where another type is required', r, problems)
         computed = ['xs[x + 1]', 'xs[-1]', 'xs[abs(x)]', 'ms[len(xs) - 1].f', 'xs[xs[0]]', '@A.xs[x * 2]']
         for ref in computed:
             for use1, use2 in (('%s > 0', 'not %s'), ('not %s', '%s + 1 > 0'), ('%s in {1}', '%s.f > 0')):
@@ -319,7 +328,7 @@ def replay(w):
 def describe(tier):
     b = bounds(tier)
     return {
-        'rule': f"base: every accepted Bool term with <= {b['nodes']} nodes of the C04 universe for schemas {list(b['schemas'])}; for every argument position (operands of all operators, function arguments, range bounds, set elements, quantifier domains and bodies, indices) every filler of a 15-term menu (literals of each primitive sort, operator / function / quantifier results of each sort, a set, a range) whose own type is disjoint from the parameter type is injected - one clash per text, confirmed by the reference definite-clash analysis - and parsed as expression, predicate and property; plus reuse of each reference at a disjoint type (both conjunct orders) through the predicate, condition and property parsers; plus non-boolean roots; plus 10 field pairs required at two disjoint types with one occurrence written through the event's own alias (in every slot kind, 3 orders, 3 event positions) and 6 computed-index elements used at two types; plus quantifiers over set / range literals whose bound variable is used at a type disjoint from the element type, alone and after 1-2 loosely typed occurrences (6 domains x 2 quantifiers x 3-4 clashing uses x 13 bodies); plus the signature matrix: every unary / binary operator and every built-in function with every wrong-sorted non-reference operand / argument (3 shapes per sort), every misuse of its result at a disjoint type, and one-argument calls of the two-argument functions. evaluations = injected texts; every one must raise TypeError.",
+        'rule': f"base: every accepted Bool term with <= {b['nodes']} nodes of the C04 universe for schemas {list(b['schemas'])}; for every argument position (operands of all operators, function arguments, range bounds, set elements, quantifier domains and bodies, indices) every filler of a 15-term menu (literals of each primitive sort, operator / function / quantifier results of each sort, a set, a range) whose own type is disjoint from the parameter type is injected - one clash per text, confirmed by the reference definite-clash analysis - and parsed as expression, predicate and property; plus reuse of each reference at a disjoint type (both conjunct orders) through the predicate, condition and property parsers; plus non-boolean roots; plus 10 field pairs required at two disjoint types with one occurrence written through the event's own alias (in every slot kind, 3 orders, 3 event positions) and 6 computed-index elements used at two types; plus quantifiers over set / range literals whose bound variable is used at a type disjoint from the element type, alone and after 1-2 loosely typed occurrences (6 domains x 2 quantifiers x 3-4 clashing uses x 13 bodies); plus the signature matrix: every unary / binary operator and every built-in function with every wrong-sorted non-reference operand / argument (3 shapes per sort), every misuse of its result at a disjoint type, and one-argument calls of the two-argument functions. Plus 22 uses of the event's own alias as a whole message where another type is required x 4 event positions. evaluations = injected texts; every one must raise TypeError.",
         'bounds': {'nodes': b['nodes']},
         'exhaustive': True,
         'assumptions': ['= / != clashes are generated only between two operands that each certainly have one base type (literal or operator/function result); transitive clashes through references and heterogeneous sets are not claimed and not generated'],
